@@ -624,9 +624,14 @@ def splice_fn(fd, files, asm, canary=False, record=True):
             hits = [k for k in range(len(tl) - len(olines) + 1)
                     if all(tl[k + q].strip() == olines[q] for q in range(len(olines)))]
             cnt = len(hits)
-            if cnt != rw['count'] or cnt == 0:
+            if cnt > rw['count']:
                 raise LostAnchor("rewrite anchor in %s occurs %d times, expected %d: %r"
                                  % (item, cnt, rw['count'], rw['old'][:80]))
+            if cnt < rw['count']:
+                # the text a rewrite replaces is (partly) gone from this tree: there is nothing to
+                # replace, the function text goes to the verifier as it is (which accepts it or not)
+                asm.log.setdefault('rewrites_not_applicable', []).append(
+                    {'item': item, 'kind': rw['kind'], 'found': cnt, 'expected': rw['count'], 'old': rw['old']})
             for k in reversed(hits):
                 ind = tl[k][:len(tl[k]) - len(tl[k].lstrip())]
                 tl[k:k + len(olines)] = [ind + x.strip() for x in rw['new'].split('\n')]
@@ -635,9 +640,12 @@ def splice_fn(fd, files, asm, canary=False, record=True):
             # single-line rewrites are matched modulo surrounding indentation
             rw = dict(rw, old=rw['old'].strip(), new=rw['new'].strip())
             cnt = text.count(rw['old'])
-            if cnt != rw['count'] or cnt == 0:
+            if cnt > rw['count']:
                 raise LostAnchor("rewrite anchor in %s occurs %d times, expected %d: %r"
                                  % (item, cnt, rw['count'], rw['old'][:80]))
+            if cnt < rw['count']:
+                asm.log.setdefault('rewrites_not_applicable', []).append(
+                    {'item': item, 'kind': rw['kind'], 'found': cnt, 'expected': rw['count'], 'old': rw['old']})
             text = text.replace(rw['old'], rw['new'])
         rewritten_lines += (rw['old'].count('\n') + 1) * cnt
         asm.log['rewrites'].append({'item': item, 'kind': rw['kind'], 'count': cnt,
